@@ -301,7 +301,11 @@ class Check:
     # ------------------------------------------------------------- reporting
     def replay_path(self, obj):
         h = hashlib.sha256(json.dumps(obj, sort_keys=True, default=str).encode()).hexdigest()[:12]
-        p = os.path.join(VERIF, "replays", "%s-%s.json" % (self.pid, h))
+        rdir = os.path.join(VERIF, "replays")
+        if os.path.realpath(REPO) != "/repo":
+            rdir = os.path.join(self.work, "replays")
+            os.makedirs(rdir, exist_ok=True)
+        p = os.path.join(rdir, "%s-%s.json" % (self.pid, h))
         json.dump(obj, open(p, "w"), indent=1, default=str)
         return p
 
@@ -369,7 +373,11 @@ class Check:
         ev = {"property_id": self.pid, "tier": self.tier, "seed": self.seed, "level": level,
               "coverage": cov, "assumptions": list(assumptions), "wall_s": round(wall, 2),
               "violations": len(seen)}
-        json.dump(ev, open(os.path.join(VERIF, "evidence", self.pid + ".json"), "w"), indent=1, default=str)
+        evdir = os.path.join(VERIF, "evidence")
+        if os.environ.get("VERIF_NO_EVIDENCE") or os.path.realpath(REPO) != "/repo":
+            evdir = os.path.join(self.work, "evidence")   # runs against a scratch worktree never touch the real evidence
+            os.makedirs(evdir, exist_ok=True)
+        json.dump(ev, open(os.path.join(evdir, self.pid + ".json"), "w"), indent=1, default=str)
         print("%s %s: %d theorems (%d discharged), %s evaluations, %d violation(s), %d known finding(s) reproduced, %.1fs" % (
             self.pid, self.tier, len(self.theorems), cov["discharged"], cov.get("evaluations", "?"), len(seen),
             len([s for s in self.known_hits if self.known_hits[s]]), wall))
